@@ -21,7 +21,7 @@ theorem valOf_eraseVal_ne {vals : List (K × V)} (hnd : (vals.map Prod.fst).Nodu
 
 theorem del_nil (key : K) : del cmp key [] = [] := rfl
 
-theorem Inv.of_removed (hc : TotalCmp cmp) {s : SL K V} (h : Inv cmp s) {key : K} (hk : key ∈ chain0 s)
+theorem Inv.of_removed (hc : WeakCmp cmp) {s : SL K V} (h : Inv cmp s) {key : K} (hk : key ∈ chain0 s)
     {lvl : Nat} (hl : levelAfter (delTop cmp key (heightOf s key) s.lv) s.level (heightOf s key) = some lvl) :
     Inv cmp (removed cmp s key lvl) ∧
       chain0 (removed cmp s key lvl) = del cmp key (chain0 s) ∧
@@ -67,7 +67,10 @@ theorem Inv.of_removed (hc : TotalCmp cmp) {s : SL K V} (h : Inv cmp s) {key : K
   obtain ⟨hf1, hf2, hf3, hf4⟩ := hfacts
   refine ⟨⟨?_, ?_, ?_, ?_, ?_, ?_, ?_, ?_, ?_⟩, hc0, ?_⟩
   · simp only [removed]; rw [length_delTop]; exact hlen
-  · exact h.tower.delTop hc hpost
+  · refine h.tower.delTop hc (fun l hl y hy => ?_)
+    have hlv : l ∈ s.lv := List.mem_of_mem_drop hl
+    have hyk : y ≠ key := fun e => hpost l hl (e ▸ hy)
+    exact hs0.not_equiv hc ((h.sub0 l hlv).subset hy) hk hyk
   · simp only [removed]; omega
   · intro i hi hi32
     simp only [removed] at hi ⊢
@@ -79,7 +82,7 @@ theorem Inv.of_removed (hc : TotalCmp cmp) {s : SL K V} (h : Inv cmp s) {key : K
     have := length_del hc key hs0 hk
     simp only [removed]; rw [h.len]; omega
   · intro k
-    rw [hc0, mem_del hc]
+    rw [hc0, mem_del hc hs0 hk]
     simp only [removed]
     rw [mem_map_fst_eraseVal h.valsNodup, h.vals]
   · simp only [removed]
@@ -118,5 +121,94 @@ theorem omap_get_filterMap (vals : List (K × V)) (k : K) (l : List K) :
       · simp only [hkx, decide_false]
         rw [ih]
         simp [List.mem_cons, Ne.symm hkx]
+
+/-! ### the weak-order reading of the abstraction -/
+
+theorem find?_filterMap_valOf (vals : List (K × V)) (k : K) :
+    ∀ (l : List K), (∀ x ∈ l, ∃ v, getVal vals x = some v) →
+      (l.filterMap (valOf vals)).find? (fun p => cmp p.1 k == 0) = (findEq cmp k l).bind (valOf vals) := by
+  intro l
+  induction l with
+  | nil => intro _; rfl
+  | cons x xs ih =>
+    intro hv
+    obtain ⟨v, hxv⟩ := hv x (by simp)
+    have hvo : valOf vals x = some (x, v) := by simp [valOf, hxv]
+    rw [List.filterMap_cons, hvo]
+    simp only [List.find?_cons, findEq]
+    by_cases hx : (cmp x k == 0) = true
+    · simp [hx, hvo]
+    · have hx' : (cmp x k == 0) = false := by simpa using hx
+      simp only [hx']
+      exact ih (fun y hy => hv y (by simp [hy]))
+
+theorem Inv.find_toMap {s : SL K V} (h : Inv cmp s) (k : K) :
+    (toMap s).find? (fun p => cmp p.1 k == 0) = (findEq cmp k (chain0 s)).bind (valOf s.vals) := by
+  rw [toMap_eq]
+  exact find?_filterMap_valOf s.vals k _
+    (fun x hx => Option.isSome_iff_exists.mp (getVal_isSome.mpr ((h.vals x).mpr hx)))
+
+/-- `OMap.keyW` on the abstraction is the stored node equivalent to the key. -/
+theorem Inv.keyW_toMap {s : SL K V} (h : Inv cmp s) (k : K) :
+    OMap.keyW cmp (toMap s) k = findEq cmp k (chain0 s) := by
+  unfold OMap.keyW
+  rw [h.find_toMap]
+  cases hf : findEq cmp k (chain0 s) with
+  | none => rfl
+  | some n =>
+    obtain ⟨v, hv⟩ := Option.isSome_iff_exists.mp (getVal_isSome.mpr ((h.vals n).mpr (findEq_some hf).1))
+    simp [valOf, hv]
+
+/-- `OMap.getW` on the abstraction reads the value of that node. -/
+theorem Inv.getW_toMap {s : SL K V} (h : Inv cmp s) (k : K) :
+    OMap.getW cmp (toMap s) k = (findEq cmp k (chain0 s)).bind (getVal s.vals) := by
+  unfold OMap.getW
+  rw [h.find_toMap]
+  cases hf : findEq cmp k (chain0 s) with
+  | none => rfl
+  | some n =>
+    obtain ⟨v, hv⟩ := Option.isSome_iff_exists.mp (getVal_isSome.mpr ((h.vals n).mpr (findEq_some hf).1))
+    simp [valOf, hv]
+
+theorem omap_keyW_some {m : List (K × V)} {k n : K} (h : OMap.keyW cmp m k = some n) : cmp n k = 0 := by
+  unfold OMap.keyW at h
+  cases hf : m.find? (fun p => cmp p.1 k == 0) with
+  | none => rw [hf] at h; cases h
+  | some p =>
+    rw [hf] at h
+    simp only [Option.map_some, Option.some.injEq] at h
+    have := List.find?_some hf
+    rw [← h]; simpa using this
+
+/-- Equivalent keys address the same binding. -/
+theorem omap_set_congr (hc : WeakCmp cmp) {n k : K} (h : cmp n k = 0) (m : List (K × V)) (v : V) :
+    m.filter (fun p => decide (cmp p.1 k < 0)) ++ (n, v) :: m.filter (fun p => decide (cmp k p.1 < 0)) =
+      OMap.set cmp m n v := by
+  unfold OMap.set
+  congr 1
+  · apply List.filter_congr; intro p _
+    simp only [decide_eq_decide]; exact (hc.lt_congr_right h p.1).symm
+  · congr 1
+    apply List.filter_congr; intro p _
+    simp only [decide_eq_decide]; exact (hc.lt_congr_left h p.1).symm
+
+theorem omap_setW_of_some (hc : WeakCmp cmp) {m : List (K × V)} {k n : K} (h : OMap.keyW cmp m k = some n)
+    (v : V) : OMap.setW cmp m k v = OMap.set cmp m n v := by
+  unfold OMap.setW
+  rw [h]
+  exact omap_set_congr hc (omap_keyW_some h) m v
+
+theorem omap_setW_of_none {m : List (K × V)} {k : K} (h : OMap.keyW cmp m k = none) (v : V) :
+    OMap.setW cmp m k v = OMap.set cmp m k v := by
+  unfold OMap.setW OMap.set; rw [h]; rfl
+
+theorem omap_erase_congr (hc : WeakCmp cmp) {n k : K} (h : cmp n k = 0) (m : List (K × V)) :
+    OMap.erase cmp m k = OMap.erase cmp m n := by
+  unfold OMap.erase
+  congr 1
+  · apply List.filter_congr; intro p _
+    simp only [decide_eq_decide]; exact (hc.lt_congr_right h p.1).symm
+  · apply List.filter_congr; intro p _
+    simp only [decide_eq_decide]; exact (hc.lt_congr_left h p.1).symm
 
 end Golib.C02
